@@ -46,6 +46,16 @@ CHECKS = {
              "runs against the real library with a pool key of that kind; consume-side tokens come from refimpl, and an HMAC algorithm offered an "
              "asymmetric verifier gets a MAC keyed with that key's PEM/DER/OpenSSH/JWK public encoding. PEM/OpenSSH text imported as oct must warn.",
         note="Trusted: TLC, refimpl, key pool. Suitable => success is left to C03/C04 (reported as drift here)."),
+    "C14": dict(
+        cat="model_checking", ref="DESIGN.md section 6 (C14)",
+        technique="TLA+ KeySel spec of guess_key (kid lookup, single-key shortcut, type-filtered nondeterministic pick, kid write-back): TLC enumerates key sets x kid selectors x positions x serializations; scenarios replayed on joserfc and cross-checked with refimpl",
+        text="KeySel.tla models key sets as sequences of typed slots and guess_key as resolve/use steps with the random pick as nondeterminism; TLC "
+             "checks 'the key used is the one named by kid / a key of the type the algorithm requires, its kid is written back where the serialization "
+             "carries it, unknown kid => invalid-key-id, no kid only for singleton sets' over ~83k scenarios and refutes five deviations. Each scenario runs "
+             "on the real library (random picks repeated): the recorded kid must belong to a candidate TLC computed, the token must verify under refimpl with "
+             "that key alone and under joserfc with the public key set; consume-side tokens are refimpl forgeries signed by a chosen member of the set. "
+             "Every key set is also imported and exported and compared member by member.",
+        note="Trusted: TLC, refimpl, key pool. Quick tier runs a seeded quarter of the scenarios."),
 }
 
 NOT_YET = {}
